@@ -1,8 +1,5 @@
-//! C02 runner (stub). Replace the body; keep the signature `pub fn run(args: &[String])`.
-#[allow(unused_imports)]
-use crate::common::{catch, each_line, opt_i64};
-
-pub fn run(_args: &[String]) {
-    eprintln!("c02: runner not implemented");
-    std::process::exit(2);
+//! C02 runner: same adapters as C01 (`emit` = parse, check, lower, emit, syn re-parse;
+//! `build` = the real `incan build` path with cargo). See c01.rs.
+pub fn run(args: &[String]) {
+    crate::c01::run(args)
 }
